@@ -164,19 +164,25 @@ def correspondence(ctx):
     for i in range(n):
         src = DOCS[i % 2] if i < 30 else pipeline.gen_doc(rng)[1]
         h = [rng.choice(steps) for _ in range(rng.randint(1, 5))]
-        cases.append((src, h))
-    runs = [pipeline.Run(src, [op_string(*s) for s in h]) for src, h in cases]
+        cases.append((src, [op_string(*s) for s in h]))
+    # past disagreements run first
+    import json as _json
+    import os as _os
+    cp = _os.path.join(common.VERIF, "harness", "corpus", "C15.jsonl")
+    past = [_json.loads(l) for l in open(cp)] if _os.path.exists(cp) else []
+    cases = [(e["src"], list(e["ops"])) for e in past] + cases
+    runs = [pipeline.Run(src, ops) for src, ops in cases]
     live = [(c, r) for c, r in zip(cases, runs) if r.in_wire is not None]
     outs = ctx.model([r.model_line() for _, r in live])
     dis = []
-    for ((src, h), r), m in zip(live, outs):
+    for ((src, ops), r), m in zip(live, outs):
         ctx.count("model:" + r.outcome)
         why = r.compare(m)
         if why:
-            dis.append({"what": "history %s: %s" % ([op_string(*s) for s in h], why), "kind": "pipeline", "input": {"src": src, "ops": [op_string(*s) for s in h]}})
+            dis.append({"what": "history %s: %s" % (ops, why), "kind": "pipeline", "input": {"src": src, "ops": ops}})
     ctx.stats["corr_cases"] = len(live)
     ctx.stats["evaluations"] = ctx.stats.get("evaluations", 0) + len(live)
-    ctx.samples.append({"document": cases[0][0][:300], "history": [op_string(*s) for s in cases[0][1]], "outcome": runs[0].outcome})
+    ctx.samples.append({"document": cases[-1][0][:300], "history": cases[-1][1], "outcome": runs[-1].outcome})
     return dis
 
 
